@@ -56,29 +56,51 @@ def expected(s, api, dec):
     return scen.outsyms_to_text(s['dec']) if dec else scen.syms_to_bytes(s['raw'])
 
 
-def replay_scenarios(ctx, scs, modes, frags):
-    """One session per (mode, frag, batch of scenarios): every scenario x 6 API variants."""
+_JOB = {}
+
+
+def _replay_batch(task):
+    """One session: a batch of scenarios x 6 API variants; returns (evaluations, [(clause, replay)])."""
+    mode, frag, b0 = task
+    scs, seed = _JOB['scs'], _JOB['seed']
+    batch = scs[b0:b0 + 40]
+    ops = []
+    for j, s in enumerate(batch):
+        for (api, dec) in APIS:
+            ops.append(dict(api=api, decode=dec, cmd='s%d' % j, chunks=[scen.syms_to_bytes(c).hex() for c in s['chunks']]))
+    spec = dict(seed=seed + b0, maxdata=4096, rid='plus', frag=frag, ops=ops)
+    rr = scen.run(spec, mode)
+    n, bad = 0, []
+    for k, op in enumerate(ops):
+        s = batch[k // len(APIS)]
+        o = rr.outcomes[1 + k]
+        want = expected(s, op['api'], op['decode'])
+        n += 1
+        if o.kind != 'ret' or o.value != want:
+            clause = 'C01.NoDecodeError' if o.exc_name == 'UnicodeDecodeError' else ('C01.DecodeWholeVsEach' if op['decode'] else 'C01.ExactConcatenation')
+            if len(bad) < 3:
+                bad.append((clause, dict(kind='scenario', mode=mode, frag=frag, api=op['api'], decode=op['decode'], chunks=s['chunks'],
+                                         expected=repr(want), got=repr(o.value if o.kind == 'ret' else o.exc))))
+    return n, bad
+
+
+def replay_scenarios(ctx, scs, modes, frags, nproc=12):
+    """One session per (mode, frag, batch of scenarios): every scenario x 6 API variants.  The sessions are independent of each other
+    and are dealt to forked workers."""
+    import multiprocessing as mp
+    tasks = [(mode, frag, b0) for mode in modes for frag in frags for b0 in range(0, len(scs), 40)]
+    _JOB['scs'], _JOB['seed'] = scs, ctx.seed
+    if len(tasks) < 8:
+        res = [_replay_batch(t) for t in tasks]
+    else:
+        with mp.get_context('fork').Pool(nproc) as pool:
+            res = pool.map(_replay_batch, tasks, chunksize=4)
     n = 0
-    for mode in modes:
-        for frag in frags:
-            for b0 in range(0, len(scs), 40):
-                batch = scs[b0:b0 + 40]
-                ops = []
-                for j, s in enumerate(batch):
-                    for (api, dec) in APIS:
-                        ops.append(dict(api=api, decode=dec, cmd='s%d' % j, chunks=[scen.syms_to_bytes(c).hex() for c in s['chunks']]))
-                spec = dict(seed=ctx.seed + b0, maxdata=4096, rid='plus', frag=frag, ops=ops)
-                rr = scen.run(spec, mode)
-                for k, op in enumerate(ops):
-                    s = batch[k // len(APIS)]
-                    o = rr.outcomes[1 + k]
-                    want = expected(s, op['api'], op['decode'])
-                    n += 1
-                    if o.kind != 'ret' or o.value != want:
-                        clause = 'C01.NoDecodeError' if o.exc_name == 'UnicodeDecodeError' else ('C01.DecodeWholeVsEach' if op['decode'] else 'C01.ExactConcatenation')
-                        if ctx.violation(clause, dict(kind='scenario', mode=mode, frag=frag, api=op['api'], decode=op['decode'], chunks=s['chunks'],
-                                                      expected=repr(want), got=repr(o.value if o.kind == 'ret' else o.exc))) and len(ctx.violations) >= 3:
-                            return n
+    for k, bad in res:
+        n += k
+        for clause, rep in bad:
+            if len(ctx.violations) < 3:
+                ctx.violation(clause, rep)
     return n
 
 
